@@ -37,6 +37,7 @@ pub fn def() -> CheckDef {
         exec,
         components: "real code: Debug, AlgorithmName and Drop/zeroize implementations of the nine crates and of cipher's StreamCipherCoreWrapper; stub: block cipher (SimCipher: 16 bytes, alignment 1, so that no object has 8 or more padding bytes); scanner: harness-side read of the slot after drop_in_place; cts has neither Debug nor a zeroize feature (vacuous there)",
         assumptions: &["secrets shorter than 8 bytes are not scanned for", "copies left on the stack by moves are outside the object's storage and not scanned", "the scanner is validated by the positive-control build in the same command"],
+        nondet_is_violation: false,
     }
 }
 
